@@ -3,9 +3,9 @@ import Model.C10.Engine
 C10 — concrete spends on the EXECUTED instance `secpCrypto`: the hypotheses of the `_secp256k1` closures are satisfiable.
 
 Two of them are discharged by the KERNEL (`decide +kernel`: real SHA-256 / RIPEMD-160, real secp256k1 arithmetic -- minutes
-of kernel time, which is why the facts live in three modules of their own that build in parallel: `ExampleKey`,
-`ExampleEcdsa`, `ExampleSchnorr`; this one has the data): a p2wpkh spend signed with ECDSA and a taproot key-path spend
-signed with BIP340.  The other templates are `#guard`ed: the compiled evaluator runs sign -> DER -> finalize -> the
+of kernel time, which is why the facts live in three modules of their own: `ExampleKey`, `ExampleEcdsa` (imported by
+`Props.C10`) and `ExampleSchnorr` (11 minutes; used by `ExampleTapKey` only, built on demand); this one has the data): a
+p2wpkh spend signed with ECDSA and a taproot key-path spend signed with BIP340.  The other templates are `#guard`ed: the compiled evaluator runs sign -> DER -> finalize -> the
 composed engine on a concrete spend of every template and the build fails unless every hypothesis of the theorem
 evaluates to true and `verifyScript` answers `.ok ()`.  Core Lean only.
 -/
@@ -157,5 +157,23 @@ def tapLeafCloses (ht : Nat) : Bool :=
   | _, _ => false
 
 #guard Gen.Spend.TAPROOT_HASH_TYPES.all tapLeafCloses
+
+/-! ### taproot key path (the output key is `x(d1)`: `d1` plays the tweaked key), every taproot hash type -/
+
+def tapKeyCloses (ht : Nat) : Bool :=
+  let prog := xOnly d1
+  let c : TxCtx := ctxOf (p2tr prog) []
+  match Schnorr.sign secp bip340Params 4 (engineTapDigest secpCrypto c .TAPROOT ht 0xFFFFFFFF) d1 (List.replicate 32 0) with
+  | .ok sg =>
+    match Schnorr.serialize secp bip340Params sg with
+    | .ok s64 =>
+      let sig := s64 ++ (if ht = 0 then [] else [UInt8.ofNat ht])
+      bip341Defined c.tx c.nIn c.spent ht && castToBool prog &&
+      (((ofBE prog : Nat) : Int) == secp.x (secp.mul d1 secp.gen)) &&
+      okUnit (verifyInput secpCrypto Gen.Spend.EVERY_FLAG c.tx c.spent 0 [sig])
+    | .error _ => false
+  | .error _ => false
+
+#guard Gen.Spend.TAPROOT_HASH_TYPES.all tapKeyCloses
 
 end Btc.Spend.Ex
